@@ -135,6 +135,17 @@ def main():
     ncorp = len(cases)
     cases += [gen_case(R.rng) for _ in range(n)]
     sessions = [{"nocontext": False, "steps": [tstep("T", t), tstep("S", s), tstep(form, x)]} for (t, s, form, x) in cases]
+    # the same with ARRAY leaves in the binding checks: leaf types whose check binds axes, and unions whose first alternative
+    # fails after partial progress (the array check then rolls the context back WHILE the structured check is under way)
+    ARRL = [["arr", "Float", "a b"], ["union", [["arr", "Float", "a"], ["arr", "Float", "a b"]]], ["union", [["arr", "Float", "a 7"], ["arr", "Float", "a b"]]],
+            ["union", [["arr", "Int", "a b"], "int", ["arr", "Float", "a b"]]], ["tuple", [["arr", "Float", "a b"], ["union", [["arr", "Float", "b"], ["arr", "Float", "q b"]]]]]]
+    narr = 2500 if R.thorough else 250
+    for k in range(narr):
+        t, s, form, x = gen_case(R.rng)
+        L = R.rng.choice(ARRL)
+        mk = (lambda: ["t", [["a", [2, 3], "float32"], ["a", [5, 3], "float32"]]]) if L[0] == "tuple" else (lambda: ["a", [2, 3], "float32"])
+        cases.append((t, s, form, x))
+        sessions.append({"nocontext": False, "steps": [tstep("T", T.fill(t, mk), L), tstep("S", T.fill(s, mk), L if R.rng.random() < .5 else ["arr", "Float", "a b"] if L[0] != "tuple" else L), tstep(form, x)]})
     # structure strings, well- and ill-formed
     strs = ["T", "S T", "T ...", "... T", "...", "... ...", "... T ...", "", "  ", "T,S", "1T", "T ... S", "a b c ...", "... a b c", "T  ...", " T ", "T\t...", "T...", "...T", "T .. .", "T . . .",
             "_x y2", "T ... ...", "... ... T", "T-S", "T ...S", "class", "None"]
@@ -147,7 +158,7 @@ def main():
     chunks = [allsess[i::nw] for i in range(nw)]
     from concurrent.futures import ThreadPoolExecutor
     with ThreadPoolExecutor(nw) as ex:
-        outs = list(ex.map(lambda ch: vf.impl("impl_pytree.py", {"sessions": ch}), chunks))
+        outs = list(ex.map(lambda kc: vf.impl("impl_pytree.py", {"sessions": kc[1], "prelude": kc[0] % 2 == 1}), list(enumerate(chunks))))   # odd workers: after unrelated failing/raising PyTree checks
     impl = [None] * len(allsess)
     for w, o in enumerate(outs):
         for j, r in enumerate(o):
